@@ -4,6 +4,7 @@ import (
 	"context"
 	"encoding/json"
 	"fmt"
+	"math"
 	"strings"
 
 	"github.com/theory/sqljson/path/ast"
@@ -121,6 +122,30 @@ func compareNumbers[T int | int64 | float64](left, right T) int {
 	return 0
 }
 
+// compareIntFloat compares an int64 to a float64 by their mathematical
+// values and returns 0, 1, or -1. It does not convert left to a float64,
+// which would round integers beyond 2^53 and make distinct numbers compare as
+// equal.
+func compareIntFloat(left int64, right float64) int {
+	const two63 = float64(1 << 63)
+	switch {
+	case right >= two63:
+		// Greater than every int64.
+		return -1
+	case right < -two63:
+		// Less than every int64.
+		return 1
+	}
+
+	// The integral part of right fits in an int64. Compare it to left and, if
+	// they're equal, let the fractional part decide.
+	integral := math.Trunc(right)
+	if cmp := compareNumbers(left, int64(integral)); cmp != 0 {
+		return cmp
+	}
+	return compareNumbers(integral, right)
+}
+
 // compareBool compares two numeric values and returns 0, 1, or -1. The left
 // and right params must be int64, float64, or json.Number values.
 func compareNumeric(left, right any) int {
@@ -130,14 +155,14 @@ func compareNumeric(left, right any) int {
 		case int64:
 			return compareNumbers(left, right)
 		case float64:
-			return compareNumbers(float64(left), right)
+			return compareIntFloat(left, right)
 		case json.Number:
 			if rightInt, err := right.Int64(); err == nil {
 				return compareNumbers(left, rightInt)
 			}
 			rightFloat, err := right.Float64()
 			if err == nil {
-				return compareNumbers(float64(left), rightFloat)
+				return compareIntFloat(left, rightFloat)
 			}
 			// This should not happen.
 			panic(err)
@@ -147,8 +172,11 @@ func compareNumeric(left, right any) int {
 		case float64:
 			return compareNumbers(left, right)
 		case int64:
-			return compareNumbers(left, float64(right))
+			return -compareIntFloat(right, left)
 		case json.Number:
+			if rightInt, err := right.Int64(); err == nil {
+				return -compareIntFloat(rightInt, left)
+			}
 			rightFloat, err := right.Float64()
 			if err == nil {
 				return compareNumbers(left, rightFloat)
